@@ -32,7 +32,7 @@ open AGV.Spec.Exec (FieldOcc Sel.key mapIdx)
 -- ------------------------------------------------------------------ events
 
 inductive Hook where
-  | request | prepare | parse | validation | execute | resolve
+  | request | prepare | parse | validation | execute | resolve | subscribe
   deriving DecidableEq, Repr, Inhabited
 
 /-- a place where a hook chain runs; for `resolve`: the response path of the field / list item and
@@ -95,11 +95,14 @@ structure FRes where
   nq : Nat := 0
   deriving Repr, Inhabited
 
-/-- an extension: one function per hook of the `Extension` trait (subscribe is not modelled) -/
+/-- an extension: one function per hook of the `Extension` trait.  `subscribe` wraps the response
+    stream when `execute_stream` is called (it is not a future: it returns at once) -/
 structure Ext (Req Doc VR Resp E : Type) where
   request : Wrap Resp
+  subscribe : Wrap Unit
   prepare : PrepHook Req E
-  parse : Wrap (Except E Doc)
+  /-- receives `query: &str` (never the parsed document) -/
+  parse : String → Wrap (Except E Doc)
   validation : Wrap (Except E VR)
   execute : Wrap Resp
   resolve : Site → Wrap FRes
@@ -110,10 +113,11 @@ variable {Req Doc VR Op Resp E : Type}
 /-- the recording pass-through extension with stack index `idx` -/
 def recExt (idx : Nat) : Ext Req Doc VR Resp E where
   request := recWrap idx { hook := .request }
+  subscribe := recWrap idx { hook := .subscribe }
   prepare := fun r next =>
     let x := next r
     (x.1, Ev.hook true idx { hook := .prepare } :: x.2 ++ [Ev.hook false idx { hook := .prepare }])
-  parse := recWrap idx { hook := .parse }
+  parse := fun q => recWrap idx { hook := .parse, parent := q }
   validation := recWrap idx { hook := .validation }
   execute := recWrap idx { hook := .execute }
   resolve := fun s => recWrap idx s
@@ -121,8 +125,9 @@ def recExt (idx : Nat) : Ext Req Doc VR Resp E where
 /-- the default methods of the trait: every hook only delegates -/
 def passExt : Ext Req Doc VR Resp E where
   request := passWrap
+  subscribe := passWrap
   prepare := fun r next => next r
-  parse := passWrap
+  parse := fun _ => passWrap
   validation := passWrap
   execute := passWrap
   resolve := fun _ => passWrap
@@ -131,13 +136,46 @@ def passExt : Ext Req Doc VR Resp E where
 def stack (ls : List Nat) : List (Ext Req Doc VR Resp E) := ls.map recExt
 
 /-- the base futures of the pipeline; the executor is a parameter: it receives the resolve-hook
-    runner and whether any extension is installed -/
+    runner and whether any extension is installed.
+
+    THE REQUEST FORM.  A request reaches `prepare_request` as query text, possibly together with a
+    document parsed ahead of time (`Request::parsed_query()` called by a transport,
+    `Request::set_parsed_query`, or a `prepare_request` hook that filled it in): `preparsed`.  The
+    parse future uses that document when there is one and parses `request.query` otherwise; in both
+    cases it runs INSIDE the `parse_query` hook chain, and the hooks are handed the text
+    (`queryText`) and never the document. -/
 structure Base (Req Doc VR Op Resp E : Type) where
+  /-- `parse_query(&request.query)` -/
   parse : Req → Except E Doc
   validate : Req → Doc → Except E VR
   selectOp : Req → Doc → Except E Op
   exec : (Site → Wrap FRes) → Bool → Req → Doc → Op → VR → T Resp
   fromErrors : E → Resp
+  /-- `request.parsed_query` (after the prepare hooks ran) -/
+  preparsed : Req → Option Doc := fun _ => none
+  /-- `check_recursive_depth` / `check_max_directives`: run on the document of either branch -/
+  limits : Doc → Except E Doc := fun d => .ok d
+  /-- `&request.query` as handed to the `parse_query` hooks -/
+  queryText : Req → String := fun _ => ""
+
+/-- the parse future of `prepare_request` -/
+def parseFut (B : Base Req Doc VR Op Resp E) (req : Req) : Except E Doc :=
+  match B.preparsed req with
+  | some d => B.limits d
+  | none =>
+    match B.parse req with
+    | .ok d => B.limits d
+    | .error e => .error e
+
+/-- deviations of the pipeline (all `false` = `src/schema.rs` as it is) -/
+structure PDefects where
+  /-- (seeded change C30-r3, not the pinned tree) the `parse_query` chain is entered only when the
+      text still has to be parsed; a pre-parsed document is checked outside the hooks -/
+  preparsedSkipsParseHooks : Bool := false
+  /-- `dynamic::Schema::execute_stream*`: a query / mutation sent through the stream API is
+      executed without entering the `execute` hooks (the static schema enters them) -/
+  streamQuerySkipsExecuteHook : Bool := false
+  deriving Repr, Inhabited, DecidableEq
 
 /-- `Extensions::resolve` at a site -/
 def resolveAt (es : List (Ext Req Doc VR Resp E)) : Site → Wrap FRes :=
@@ -148,31 +186,99 @@ def prepareAt (es : List (Ext Req Doc VR Resp E)) (req : Req) : T (Except E Req)
   let r := runPrepare (es.map (·.prepare)) req
   (r.1, Ev.mark true { hook := .prepare } :: r.2 ++ [Ev.mark false { hook := .prepare }])
 
-/-- the body of the request future:  prepare_request · parse_query · validation · [operation
-    selection, no hook] · execute ⊃ resolve*, leaving at the first stage that fails (`?`) -/
-def stages (B : Base Req Doc VR Op Resp E) (es : List (Ext Req Doc VR Resp E)) (req : Req) : T Resp :=
+/-- the parse stage: the parse future (whatever the request form) inside the `parse_query` chain -/
+def parseAt (P : PDefects) (B : Base Req Doc VR Op Resp E) (es : List (Ext Req Doc VR Resp E)) (req : Req) :
+    T (Except E Doc) :=
+  if P.preparsedSkipsParseHooks && (B.preparsed req).isSome then (parseFut B req, [])
+  else atSite { hook := .parse, parent := B.queryText req } (es.map (fun e => e.parse (B.queryText req))) (fun _ => (parseFut B req, []))
+
+/-- `prepare_request` of src/schema.rs:  prepare_request · parse_query · validation · [operation
+    selection, no hook], leaving at the first stage that fails (`?`) -/
+def front (P : PDefects) (B : Base Req Doc VR Op Resp E) (es : List (Ext Req Doc VR Resp E)) (req : Req) :
+    T (Except E (Req × Doc × VR × Op)) :=
   let p := prepareAt es req
   match p.1 with
-  | .error e => (B.fromErrors e, p.2)
+  | .error e => (.error e, p.2)
   | .ok req' =>
-    let d := atSite { hook := .parse } (es.map (·.parse)) (fun _ => (B.parse req', []))
+    let d := parseAt P B es req'
     match d.1 with
-    | .error e => (B.fromErrors e, p.2 ++ d.2)
+    | .error e => (.error e, p.2 ++ d.2)
     | .ok doc =>
       let v := atSite { hook := .validation } (es.map (·.validation)) (fun _ => (B.validate req' doc, []))
       match v.1 with
-      | .error e => (B.fromErrors e, p.2 ++ d.2 ++ v.2)
+      | .error e => (.error e, p.2 ++ d.2 ++ v.2)
       | .ok vr =>
         match B.selectOp req' doc with
-        | .error e => (B.fromErrors e, p.2 ++ d.2 ++ v.2)
-        | .ok op =>
-          let x := atSite { hook := .execute } (es.map (·.execute))
-            (fun _ => B.exec (resolveAt es) (!es.isEmpty) req' doc op vr)
-          (x.1, p.2 ++ d.2 ++ v.2 ++ x.2)
+        | .error e => (.error e, p.2 ++ d.2 ++ v.2)
+        | .ok op => (.ok (req', doc, vr, op), p.2 ++ d.2 ++ v.2)
 
-/-- `Schema::execute`:  request ⊃ stages -/
+/-- the body of the request future:  front · execute ⊃ resolve* -/
+def stagesP (P : PDefects) (B : Base Req Doc VR Op Resp E) (es : List (Ext Req Doc VR Resp E)) (req : Req) : T Resp :=
+  let f := front P B es req
+  match f.1 with
+  | .error e => (B.fromErrors e, f.2)
+  | .ok (req', doc, vr, op) =>
+    let x := atSite { hook := .execute } (es.map (·.execute))
+      (fun _ => B.exec (resolveAt es) (!es.isEmpty) req' doc op vr)
+    (x.1, f.2 ++ x.2)
+
+/-- `Schema::execute` (static and dynamic):  request ⊃ stages -/
+def executeP (P : PDefects) (B : Base Req Doc VR Op Resp E) (es : List (Ext Req Doc VR Resp E)) (req : Req) : T Resp :=
+  atSite { hook := .request } (es.map (·.request)) (fun _ => stagesP P B es req)
+
+/-- the pipeline as it is -/
+def stages (B : Base Req Doc VR Op Resp E) (es : List (Ext Req Doc VR Resp E)) (req : Req) : T Resp :=
+  stagesP {} B es req
+
 def execute (B : Base Req Doc VR Op Resp E) (es : List (Ext Req Doc VR Resp E)) (req : Req) : T Resp :=
-  atSite { hook := .request } (es.map (·.request)) (fun _ => stages B es req)
+  executeP {} B es req
+
+/-- `Schema::execute_batch`: `FuturesOrdered` over ready futures = one request after the other -/
+def executeBatch (P : PDefects) (B : Base Req Doc VR Op Resp E) (es : List (Ext Req Doc VR Resp E)) (reqs : List Req) :
+    T (List Resp) :=
+  let rs := reqs.map (executeP P B es)
+  (rs.map (·.1), (rs.map (·.2)).flatten)
+
+/-- what the stream API needs beyond `Base`: which operations are subscriptions, and the
+    execute futures of the events the merged field streams yield, in order -/
+structure SBase (Req Doc VR Op Resp E : Type) extends Base Req Doc VR Op Resp E where
+  isSub : Op → Bool
+  events : (Site → Wrap FRes) → Bool → Req → Doc → Op → VR → List (Unit → T Resp)
+
+/-- `Schema::execute_stream*`: the `subscribe` hooks wrap the stream at once; polling the stream
+    runs `prepare_request` (no `request` hook), then one `execute` hook per event of a
+    subscription, or the single execution of a query / mutation -/
+def executeStream (P : PDefects) (B : SBase Req Doc VR Op Resp E) (es : List (Ext Req Doc VR Resp E)) (req : Req) :
+    T (List Resp) :=
+  let s := atSite { hook := .subscribe } (es.map (·.subscribe)) (fun _ => ((), []))
+  let f := front P B.toBase es req
+  match f.1 with
+  | .error e => ([B.fromErrors e], s.2 ++ f.2)
+  | .ok (req', doc, vr, op) =>
+    if B.isSub op then
+      let xs := (B.events (resolveAt es) (!es.isEmpty) req' doc op vr).map
+        (fun ev => atSite { hook := .execute } (es.map (·.execute)) ev)
+      (xs.map (·.1), s.2 ++ f.2 ++ (xs.map (·.2)).flatten)
+    else
+      let x := if P.streamQuerySkipsExecuteHook then B.exec (resolveAt es) (!es.isEmpty) req' doc op vr
+        else atSite { hook := .execute } (es.map (·.execute))
+          (fun _ => B.exec (resolveAt es) (!es.isEmpty) req' doc op vr)
+      ([x.1], s.2 ++ f.2 ++ x.2)
+
+-- ------------------------------------------------------------------ prepare hooks that rewrite the request
+
+/-- a recording extension whose `prepare_request` hook rewrites the request (query text, parsed
+    document, variables, operation name, …) before handing it to the rest of the chain -/
+def rwExt (idx : Nat) (f : Req → Req) : Ext Req Doc VR Resp E :=
+  { (recExt idx : Ext Req Doc VR Resp E) with
+    prepare := fun r next =>
+      let x := next (f r)
+      (x.1, Ev.hook true idx { hook := .prepare } :: x.2 ++ [Ev.hook false idx { hook := .prepare }]) }
+
+def stackRw (lfs : List (Nat × (Req → Req))) : List (Ext Req Doc VR Resp E) := lfs.map (fun p => rwExt p.1 p.2)
+
+/-- the request the stages after `prepare_request` work on -/
+def rewritten (lfs : List (Nat × (Req → Req))) (req : Req) : Req := lfs.foldl (fun r p => p.2 r) req
 end
 
 -- ------------------------------------------------------------------ what the stack adds to a trace
@@ -371,8 +477,16 @@ structure Cache where
   maxAge : Int := 0
   deriving DecidableEq, Repr, Inhabited
 
+/-- a document the request carries in parsed form, with the label of the case: does strict
+    validation accept it? -/
+structure PreDoc where
+  doc : Doc
+  strictValid : Bool
+
 /-- a request of the correspondence harness: the outcome of parsing and of strict validation is an
-    input (the parser and the rules are other properties' business) -/
+    input (the parser and the rules are other properties' business).
+    The request FORM: `text`/`doc`/`parses`/`strictValid` describe `request.query`; `pre` is
+    `request.parsed_query` (`none` = plain text request). -/
 structure CaseReq where
   S : Schema
   doc : Doc
@@ -384,6 +498,8 @@ structure CaseReq where
   fast : Bool
   cache : Cache := {}
   fuel : Nat
+  text : String := ""
+  pre : Option PreDoc := none
 
 structure Resp where
   res : FRes
@@ -394,7 +510,13 @@ structure Resp where
 
 def caseBase (D : ExecStatic.Defects) (X : XDefects) : Base CaseReq Doc Cache OpDef Resp Stage where
   parse := fun r => if r.parses then .ok r.doc else .error .parse
-  validate := fun r _ => if r.fast || r.strictValid then .ok r.cache else .error .validation
+  preparsed := fun r => r.pre.map (·.doc)
+  queryText := fun r => r.text
+  validate := fun r _ =>
+    let sv := match r.pre with
+      | some p => p.strictValid
+      | none => r.strictValid
+    if r.fast || sv then .ok r.cache else .error .validation
   selectOp := fun r d => match AGV.Spec.Exec.selectOp d r.opName with
     | some op => .ok op
     | none => .error .selectOp
@@ -402,5 +524,25 @@ def caseBase (D : ExecStatic.Defects) (X : XDefects) : Base CaseReq Doc Cache Op
     let x := runOp D X hooked hookAt r.S d op r.vars r.w r.fuel
     ({ res := x.1, cache := vr }, x.2)
   fromErrors := fun e => { res := { val := none }, early := some e }
+
+/-- the events of a subscription of the harness family: the operation selects one root field `f`;
+    the world holds the list of the values its stream yields at `(0, f)`; event `j` is the
+    execution of the operation with that value in place (`Response::new({key: value})`, default
+    cache policy) -/
+def caseEvents (D : ExecStatic.Defects) (X : XDefects) (hookAt : Site → Wrap FRes) (hooked : Bool)
+    (r : CaseReq) (d : Doc) (op : OpDef) : List (Unit → T Resp) :=
+  match op.sels with
+  | [.field _ n _ _ _ _] =>
+    match r.w.get 0 n with
+    | .list vs => vs.map (fun v => fun (_ : Unit) =>
+        let x := runOp D X hooked hookAt r.S d op r.vars { entries := ((0, n), v) :: r.w.entries } r.fuel
+        ({ res := x.1 }, x.2))
+    | _ => []
+  | _ => []
+
+def caseSBase (D : ExecStatic.Defects) (X : XDefects) : SBase CaseReq Doc Cache OpDef Resp Stage where
+  toBase := caseBase D X
+  isSub := fun op => op.ty == .subscription
+  events := fun hookAt hooked r d op _ => caseEvents D X hookAt hooked r d op
 
 end AGV.Model.Ext
